@@ -466,6 +466,9 @@ func checkC16(c CaseC16, info *Info) *Failure {
 	if mxj.Map(m).StringIndent() != mxj.Map(m2).StringIndent() || mxj.Map(m).StringIndent(2) != mxj.Map(m3).StringIndent(2) {
 		return failf("stringindent-not-deterministic", "StringIndent differs for equal Maps")
 	}
+	if mxj.Map(m).StringIndentNoTypeInfo() != mxj.Map(m2).StringIndentNoTypeInfo() || mxj.Map(m).StringIndentNoTypeInfo(2) != mxj.Map(m3).StringIndentNoTypeInfo(2) {
+		return failf("stringindent-not-deterministic", "StringIndentNoTypeInfo differs for equal Maps:\n%s\n%s", mxj.Map(m).StringIndentNoTypeInfo(), mxj.Map(m2).StringIndentNoTypeInfo())
+	}
 	// different, shorter encodings afterwards must not disturb the results handed out before
 	for _, other := range []mxj.Map{{"z": "s"}, {"zz": []interface{}{"t", true}, "-a": "1"}} {
 		other.Xml()
